@@ -202,7 +202,7 @@ PROPS = {
     },
     'C13': {
         'props': 'Props/C13.v',
-        'suites': [{'name': 'loop', 'oracles': {'loop': 'o_loop'}, 'trivial_tags': ['plain'], 'vm_sample': 12, 'sigs': ['ask-redirect-without-asking', 'redirect-error-leaked-to-client', 'backend-reply-received-but-not-processed', 'request-never-answered-and-connection-left-open', 'event-loop-stopped']}],
+        'suites': [{'name': 'loop', 'oracles': {'loop': 'o_loop'}, 'trivial_tags': ['plain'], 'vm_sample': 12, 'sigs': ['ask-redirect-without-asking', 'redirect-to-a-known-node-refused', 'redirect-error-leaked-to-client', 'backend-reply-received-but-not-processed', 'request-never-answered-and-connection-left-open', 'event-loop-stopped']}],
         'rule': LOOP_RULE,
         'explanation': "Theorems: a MOVED/ASK reply for an open fragment naming a reachable node re-queues the fragment at the tail of that node's connection without touching any client or request (C13_redirect_requeues); for ASK the ownerless ASKING command is queued immediately before it and the write round sends ASKING then the request (C13_redirect_queue, C13_asking_then_request; witness C13_ask_witness: the +OK of ASKING reaches no client); ordering/exactly-once by C01's theorem; every step is a total function. Two genuine defects repaired: the request re-sent after -ASK was not preceded by ASKING (first proved as C13_ask_refuted and kept as a known finding, then repaired in ae04d4f: model, theorems and oracle now state the positive property); late redirects for completed requests used to panic.",
         'assumptions': ["redirect chains are finite when the cluster's redirects are consistent (no hop bound exists: A->B->A loops forever) - assumption consistent_redirects", 'as C01'],
